@@ -42,7 +42,12 @@ def make_shape(name, sizes, kinds=None, directives=None, rnd=None, p_ddl=0.25):
                 k = "D" if rnd.random() < p_ddl else "I"
             else:
                 k = "I"
-            if k == "D":
+            if k == "X":
+                # non-idempotent DDL: a second execution fails the re-run. Only used in file/all mode, where
+                # no statement may ever run twice (in none-mode a re-executed in-flight statement is allowed).
+                stmts.append({"id": sid, "kind": "ddl", "table": "x_" + sid, "strict": True,
+                              "sql": "CREATE TABLE x_%s(a int)" % sid})
+            elif k == "D":
                 stmts.append({"id": sid, "kind": "ddl", "table": "t_" + sid,
                               "sql": "CREATE TABLE IF NOT EXISTS t_%s(a int, b text DEFAULT 'x')" % sid})
             else:
@@ -50,6 +55,13 @@ def make_shape(name, sizes, kinds=None, directives=None, rnd=None, p_ddl=0.25):
         files.append({"name": "%d_f%d.sql" % (fi + 1, fi + 1), "version": str(fi + 1),
                       "directive": (directives or {}).get(fi), "stmts": stmts})
     return {"name": name, "files": files}
+
+
+def relaxed(shape, name):
+    """The same shape with every non-idempotent DDL made idempotent (for none-mode)."""
+    kinds = ["".join("I" if s["kind"] == "dml" else "D" for s in f["stmts"]) for f in shape["files"]]
+    return make_shape(name, [len(f["stmts"]) for f in shape["files"]], kinds=kinds,
+                      directives={i: f["directive"] for i, f in enumerate(shape["files"]) if f.get("directive")})
 
 
 def shape_files(shape):
@@ -61,13 +73,15 @@ def shape_files(shape):
             txt += "-- atlas:txmode %s\n\n" % f["directive"]
         for s in f["stmts"]:
             txt += s["sql"] + ";\n"
+        if not f["stmts"]:
+            txt += "-- nothing to do in this version\n"
         out[f["name"]] = txt
     return out
 
 
 def shape_sig(shape):
     return "%s[%s]" % (shape["name"], ",".join(
-        "".join("D" if s["kind"] == "ddl" else "I" for s in f["stmts"]) + (":" + f["directive"] if f.get("directive") else "")
+        ("".join(("X" if s.get("strict") else "D") if s["kind"] == "ddl" else "I" for s in f["stmts"]) or "-") + (":" + f["directive"] if f.get("directive") else "")
         for f in shape["files"]))
 
 
@@ -202,7 +216,7 @@ def in_flight(trace, pend):
 def err_class(stderr):
     s = stderr or ""
     for pat, cls in (("database is locked", "locked"), ("already taken", "advisory-lock"), ("checksum", "checksum"),
-                     ("history", "history-changed"), ("panic", "panic"), ("not clean", "not-clean"),
+                     ("history", "history-changed"), ("panic", "panic"), ("already exists", "already-exists"), ("not clean", "not-clean"),
                      ("unexpected active transaction", "active-tx")):
         if pat in s:
             return cls
